@@ -100,6 +100,7 @@ def get_estimate_from_sampling_result(
 ) -> Estimate[complex]:
     """Converts sampling counts into the estimation of the operator's
     expectation value."""
+    measurement_groups = tuple(measurement_groups)
     pauli_sets = tuple(m.pauli_set for m in measurement_groups)
     pauli_recs = tuple(m.pauli_reconstructor_factory for m in measurement_groups)
     return _Estimate(op, const, pauli_sets, pauli_recs, tuple(sampling_counts))
